@@ -129,10 +129,11 @@ def linkStep (M : List MapRow) (r : LinkR) (aCols : Option Nat) (t : Nat) (I1 : 
       | some k =>
         if !(I1.all fun d => decide (d < k)) then .error .index                -- `a[0, I1_t] = 1`
         else if !(I1.all fun d => decide (d < st.u.length)) then .error .index -- `op.u[I1_t]`
-        else if !(I2.all fun d => decide (d < k)) then .error .index           -- `a[0, I2_it] = …`
-        else match linkCoeffs st.u I1 I2 with
+        else match linkCoeffs st.u I1 I2 with                                  -- `a[0, I2_it] = …`: shapes first,
           | none => .error .value
-          | some cs => .ok { st with rows := st.rows ++ [{ coeffs := cs, rhs := 0, kind := .U }] }
+          | some cs =>
+            if !(I2.all fun d => decide (d < k)) then .error .index            -- then the column range
+            else .ok { st with rows := st.rows ++ [{ coeffs := cs, rhs := 0, kind := .U }] }
 
 /-- the inner loop over the offsets -/
 def linkInner (M : List MapRow) (r : LinkR) (aCols : Option Nat) (t : Nat) (I1 : List Nat) :
